@@ -24,8 +24,10 @@ pub assume_specification [ContainedSpan::tokens] (c: &ContainedSpan) -> (r: (&To
     ensures *r.0 == span_open(*c), *r.1 == span_close(*c);
 pub assume_specification [ContainedSpan::new] (a: TokenReference, b: TokenReference) -> (r: ContainedSpan)
     ensures span_open(r) == a, span_close(r) == b;
-pub assume_specification [TokenType::spaces] (n: usize) -> (r: TokenType);
-pub assume_specification [TokenType::tabs] (n: usize) -> (r: TokenType);
+pub uninterp spec fn tabs_tt(n: usize) -> TokenType;     // TokenType::tabs(n) prints n tab characters (class A)
+pub uninterp spec fn spaces_tt(n: usize) -> TokenType;   // TokenType::spaces(n) prints n spaces (class A)
+pub assume_specification [TokenType::spaces] (n: usize) -> (r: TokenType) ensures r == spaces_tt(n);
+pub assume_specification [TokenType::tabs] (n: usize) -> (r: TokenType) ensures r == tabs_tt(n);
 // layout-only queries: no functional contract needed (results are unconstrained to the proofs)
 pub assume_specification [BinOp::precedence] (b: &BinOp) -> (r: u8);
 pub assume_specification [BinOp::is_right_associative] (b: &BinOp) -> (r: bool);
